@@ -33,6 +33,7 @@ def gen_case(seed: int, tier: str, index: int) -> Dict[str, Any]:
         net["loss_s2c"] = rng.choice([0.1, 0.3, 0.5])
     elif profile == "requestloss":
         net["loss_c2s"] = rng.choice([0.1, 0.3, 0.5])
+        net["send_error_p"] = rng.choice([0.0, 0.05, 0.2])       # sendto() failing: asyncio calls protocol.error_received()
     elif profile == "late":
         net.update(slow_p=rng.choice([0.1, 0.3]), slow_max=rng.choice([T * 0.9, T * 1.5, T * 3]), lat_max=0.05)
     elif profile == "dup":
@@ -49,7 +50,7 @@ def gen_case(seed: int, tier: str, index: int) -> Dict[str, Any]:
         loop_cfg.update(cost_stall_p=0.003, cost_stall_min=0.05, cost_stall_max=rng.choice([0.5, 2.0, T * 1.5]))
         net["loss"] = rng.choice([0.0, 0.1])
     elif profile == "mixed":
-        net.update(loss=rng.choice([0.05, 0.2]), dup=0.1, dup_max=1.0, slow_p=0.05, slow_max=T * 1.5)
+        net.update(loss=rng.choice([0.05, 0.2]), dup=0.1, dup_max=1.0, slow_p=0.05, slow_max=T * 1.5, send_error_p=rng.choice([0.0, 0.03]))
         loop_cfg.update(cost_stall_p=0.001, cost_stall_min=0.05, cost_stall_max=1.0)
     nops = rng.randint(6, 30)
     plan = []
